@@ -1,4 +1,5 @@
 import SppModel.Generated.ReaderArith
+import SppModel.Frozen.ReaderArith
 import SppModel.Model.Transform
 /-!
 # Source tie — `Filterbank.subband` gulp clamp and skipback (C07, C09)
@@ -7,9 +8,9 @@ import SppModel.Model.Transform
 translator no longer recognises is listed in its `translationFailures` (the module still elaborates).
 -/
 namespace SppModel.Tie
-open SppModel SppModel.Generated.ReaderArith
+open SppModel SppModel.Frozen.ReaderArith
 
-theorem subband_translated : ∀ f ∈ translationFailures, f.1 ∉ ["base_py", "subband_gulp", "subband_skipback"] := by decide
+theorem subband_translated : ∀ f ∈ Generated.ReaderArith.translationFailures, f.1 ∉ ["base_py", "subband_gulp", "subband_skipback"] := by decide
 
 theorem subband_gulp_eq (g md : Nat) : subband_gulp g md = max (2 * md) g := rfl
 theorem subband_skipback_eq (md : Nat) : subband_skipback md = md := rfl
